@@ -3,15 +3,19 @@ import json, os, re
 from vlib import core
 
 THEOREMS = ['hosts_exact', 'hosts_nodup', 'hosts_inside', 'hosts_31_32', 'estimate_exact', 'cancel_stops',
-            'bounds_arith', 'hosts_0_1', 'netsz_table', 'slice_count_sound', 'unguarded_send_blocks']
-MODULES = ['LLRP.Model.Discover', 'LLRP.Proofs.Discover', 'LLRP.Model.GoInt', 'LLRP.Oracle.C16']
+            'bounds_arith', 'hosts_0_1', 'netsz_table', 'slice_count_sound', 'unguarded_send_blocks',
+            # the model is what the go2seq translation of ipGenerator sends (loop on fuel, select decided by the environment)
+            'src_ipGenerator', 'src_hosts', 'src_cancel_stops']
+MODULES = ['LLRP.Model.Discover', 'LLRP.Proofs.Discover', 'LLRP.Proofs.SeqDiscover', 'LLRP.Model.GoInt', 'LLRP.Model.GoSeq', 'LLRP.Oracle.C16']
 RULE = ('real ipGenerator on net.ParseCIDR(a/len) for every prefix length 0..32 x 40 base addresses (corners, x.y.z.255, 255.255.255.x, '
         'octet crossings, unaligned, random from the seed): complete enumeration for len >= 20 (all bases), len 16-19 (8 bases; thorough all) '
         'and, thorough, len 12-15 (6 bases); first/last 4096 + count by draining for len 10-15 (4 bases; thorough also len 8-9 = full /8s); '
         'first 4096 then cancel for the rest; computeNetSz(-5..40); cancellation scenarios (prefix x channel cap/occupancy x receiver x '
         'cancelled before / after the generator is stuck / never); whole runs of the real autoDiscover over 6 lists of configured networks inside 127/8 (nested, same network number with different prefix lengths, repeated, adjacent, /31, /32) with every dial recorded by a wildcard listener, and with a context cancelled before the start / after 20 ms. distinct = distinct request lines; non-trivial = expected reply is not '
         '[] / 0 / blocked / panic')
-ASSUMPTIONS = ['hosts/gen (LLRP.Model.Discover) is a hand-written model of ipGenerator with the same bit operations; tied to discover.go by this differential run',
+ASSUMPTIONS = ['hosts/gen (LLRP.Model.Discover) is proved to be what the go2seq translation of ipGenerator sends (src_ipGenerator, src_hosts, src_cancel_stops); '
+               'hand-written there: the meaning of the calls (SeqGlue.genEnv: a 4-byte IPNet, To4 = identity on it, OnesCount32 = number of one bits, a send appends to a list, '
+               'select decided by a stop predicate); x == nil on the result of To4 is read as len(x) == 0; those and the translator are validated by this differential run',
                'computeNetSz is the go2lean translation of the source (Gen.driver_computeNetSz); estimate_exact is stated about it',
                'net.ParseCIDR masks the address (IPNet.IP = a & mask): trusted Go library behaviour, exercised by every case',
                'the send-loop LTS models a select between <-ctx.Done() and the channel send; real blocking is observed with a deadline '
